@@ -6,7 +6,10 @@ placement-generic model YgmVerif.RouterP (and, for block, with the block-only Yg
 driver; the real next-hop tables are composed into routes and the theorem conclusions are evaluated on them (oracle).
 (2) wire: with exactly one async in flight between barriers, the (sender, receiver) sequence of MPI sends on the
 async communicator must be the model's `route` for every (s, d) and every scheme, and the property's clauses must
-hold on the wire."""
+hold on the wire.  (3) aggregated traffic: all-to-all with 3 messages per (s, d) in one epoch (default and 1 KB
+buffers); every physical buffer of the wire log is split into its messages by walking the routing headers and every
+message is followed hop by hop: each transmission must be next_hop(sender, final destination), the hop sequence the
+promised route, every message executed once."""
 from lib import common as C
 
 META = {
@@ -30,7 +33,9 @@ META = {
 
 RULE = ("exhaustive: every layout N x p of the tier's box under block placement and every layout of the round-robin box under cyclic placement; "
         "tables: every rank, every destination, 3 schemes (+5 layout tables); wire: every (s, d) pair under each scheme with one async in flight "
-        "between barriers; a case = (N, p, placement, scheme, s, d); non-trivial = s and d on different nodes")
+        "between barriers; a case = (N, p, placement, scheme, s, d); non-trivial = s and d on different nodes; aggregated: all-to-all of 3 messages per "
+        "(s, d) in one epoch on {2x3,3x2,4x2,2x4,3x3} x placement x scheme x buffer {default, 1 KB} (thorough: every layout with N,p > 1, N*p <= 24), "
+        "every message followed through the physical buffers")
 
 SCHEMES = ["NONE", "NR", "NLNR"]
 NR_KINDS = [[False], [True], [True, False]]
@@ -317,7 +322,7 @@ def check_tables(res, N, p, envsch, sr, M, model_ok, pl="block", MB=None):
         # routing loops): real traffic over them is undefined behaviour / unbounded, so the wire part is not attempted
         res.count("wire-skipped: tables of the layout already fail")
         return None
-    return node, loc
+    return node, loc, hop
 
 
 def check_wire(res, N, p, sch, sr, lo, hi, M, model_ok, node, loc, wire_routes, pl="block"):
@@ -370,6 +375,152 @@ def check_wire(res, N, p, sch, sr, lo, hi, M, model_ok, node, loc, wire_routes, 
             res.sample({"N": N, "p": p, "placement": pl, "scheme": sch, "s": s, "d": d, "wire": case["wire"], "model_route": M["routes"][sch][s][d] if model_ok else None})
 
 
+# ------------------------------------------------------------------ aggregated traffic (several messages per physical buffer)
+
+AGG_LAYOUTS = [(2, 3), (3, 2), (4, 2), (2, 4), (3, 3)]
+AGG_K, AGG_PAD = 3, 32
+AGG_MSG = 2 + 4 + 8 + AGG_PAD          # lambda id + int32 uid + cereal string (size_t length + bytes)
+
+
+def agg_jobs(tier, lays):
+    jobs = []
+    for (N, p, pl) in lays:
+        if (N, p) in AGG_LAYOUTS or (tier != "quick" and N * p <= 24 and N > 1 and p > 1):
+            for sch in SCHEMES:
+                for buf in (None, 1):
+                    jobs.append((N, p, pl, sch, buf))
+    return jobs
+
+
+def run_a2a(binary, N, p, pl, sch, buf, sim_seed=1):
+    env = penv(pl, {"YGM_COMM_ROUTING": sch})
+    if buf is not None:
+        env["YGM_COMM_BUFFER_SIZE_KB"] = buf
+    n = N * p
+    k = (N + p + SCHEMES.index(sch) + (0 if buf is None else 1)) % 5
+    return C.run_sim(binary, ["a2a", AGG_K, AGG_PAD], nodes=N, ppn=p, env=env, sim_seed=sim_seed, policy=POLICIES[k],
+                     log_bytes=-1, timeout=300, max_steps=20000 + 400 * n * n * AGG_K)
+
+
+def parse_a2a_log(log, sch):
+    """split every physical buffer of the async communicator into its messages by walking the routing headers
+    (uint32 size, int32 dest); -> ({uid: [(sender, receiver, header dest)]} in wire order, execs, stats, malformed)"""
+    acomm, tx, execs, malformed = None, {}, [], []
+    stats = {"buffers": 0, "messages": 0, "multi_dest_buffers": 0}
+    for line in log:
+        sp = line.split(" ", 2)
+        if len(sp) < 3:
+            continue
+        k, rest = sp[1], sp[2]
+        if k == "irecv" and acomm is None:
+            acomm = C.kv(rest).get("comm")
+        elif k == "h":
+            w = rest.split()
+            if len(w) >= 3 and w[1] == "x":
+                execs.append((int(w[0][2:]), int(w[2])))
+        elif k == "isend":
+            d = C.kv(rest)
+            if d.get("comm") != acomm:
+                continue
+            a, b = int(d["r"]), int(d["dst"])
+            try:
+                raw = bytes.fromhex(d.get("data", ""))
+            except ValueError:
+                malformed.append((a, b, "payload not logged in full"))
+                continue
+            stats["buffers"] += 1
+            off, dests = 0, set()
+            while off < len(raw):
+                if sch == "NONE":
+                    size, dest, body = AGG_MSG, b, off
+                else:
+                    if off + 8 > len(raw):
+                        malformed.append((a, b, "truncated header"))
+                        break
+                    size = int.from_bytes(raw[off:off + 4], "little")
+                    dest = int.from_bytes(raw[off + 4:off + 8], "little", signed=True)
+                    body = off + 8
+                if size < 6 or body + size > len(raw):
+                    malformed.append((a, b, f"message of size {size} at offset {off} overruns the buffer of {len(raw)} bytes"))
+                    break
+                uid = int.from_bytes(raw[body + 2:body + 6], "little", signed=True)
+                tx.setdefault(uid, []).append((a, b, dest))
+                dests.add(dest)
+                stats["messages"] += 1
+                off = body + size
+            if len(dests) > 1:
+                stats["multi_dest_buffers"] += 1
+    return tx, execs, stats, malformed
+
+
+def check_a2a(res, N, p, pl, sch, buf, sr, M, model_ok, node, loc, hop):
+    n = N * p
+    case0 = {"N": N, "p": p, "placement": pl, "kind": "agg", "scheme": sch, "buffer_kb": buf, "k": AGG_K}
+    res.count("agg-job:" + pl + ":" + sch + ":" + ("default" if buf is None else f"{buf}KB"))
+    if sr.verdict != "ok":
+        res.oracle_failures.append({"what": f"all-to-all run did not finish: {sr.verdict} {sr.blocked[:200]}", "signature": f"wire-agg-run-{sr.verdict.split(':')[0]}",
+                                    "case": dict(case0, stderr=sr.stderr[-300:])})
+        return
+    tx, execs, stats, malformed = parse_a2a_log(sr.log, sch)
+    for (a, b, why) in malformed[:3]:
+        res.corr_failures.append({"relation": "a physical buffer is a sequence of (routing header, message) records", "what": f"buffer {a}->{b}: {why}", "case": case0})
+    total = n * n * AGG_K
+    ecount = {}
+    for (r, uid) in execs:
+        ecount.setdefault(uid, []).append(r)
+    seen = {}          # at most a few reports per signature and job
+
+    def fail(sig, what, case):
+        seen[sig] = seen.get(sig, 0) + 1
+        if seen[sig] <= 2:
+            res.oracle_failures.append({"what": what + f" ({N}x{p} {pl} {sch} buffer {'default' if buf is None else str(buf) + 'KB'})", "signature": sig, "case": case})
+
+    hops_real = hops_model = 0
+    for uid in range(total):
+        sd, j = divmod(uid, AGG_K)
+        s, d = divmod(sd, n)
+        t = tx.get(uid, [])
+        route = [x[1] for x in t]
+        senders = [x[0] for x in t]
+        case = dict(case0, s=s, d=d, uid=uid, wire=[[a, b] for a, b, _ in t])
+        res.evaluations += 1
+        hops_real += len(t)
+        if ecount.get(uid, []) != [d]:
+            fail("wire-agg-delivery", f"message {uid} ({s}->{d}) executed on {ecount.get(uid, [])}, expected once on {d}", case)
+        if senders != ([s] + route[:-1])[:len(senders)] or not t:
+            fail("wire-agg-chain", f"message {uid} ({s}->{d}): transmissions {case['wire']} do not form a chain from the source", case)
+        for (a, b, hd) in t:
+            if sch != "NONE" and hd != d:
+                res.corr_failures.append({"relation": "forwarding keeps the header's final destination", "what": f"message {uid}: header dest {hd}, final destination {d}", "case": case})
+            want = hop[sch][a][d] if 0 <= a < n else None
+            if b != want:
+                fail("wire-agg-illegal-hop", f"message for rank {d} travels on link {a}->{b}; next_hop({d}) on rank {a} is {want}", case)
+        for sig, what in shape_failures(sch, N, p, s, d, route, node, loc, "wire-agg"):
+            fail(sig, f"{sch} {s}->{d} (message {uid}): {what} (wire {case['wire']})", case)
+        if model_ok:
+            mr = M["routes"][sch][s][d]
+            hops_model += len(mr)
+            if route != mr:
+                if seen.get("corr-route", 0) < 2:
+                    res.corr_failures.append({"relation": f"RouterP.route == hop sequence of every message of an aggregated all-to-all ({pl} placement)",
+                                              "what": f"{sch} {s}->{d} message {uid}: wire {route} model {mr}", "case": dict(case, model=mr)})
+                seen["corr-route"] = seen.get("corr-route", 0) + 1
+            else:
+                res.traces_validated += 1
+    extra = [u for u in tx if not (0 <= u < total)] + [u for u in ecount if not (0 <= u < total)]
+    if extra:
+        fail("wire-agg-delivery", f"messages with unknown uids on the wire / executed: {sorted(set(extra))[:5]}", case0)
+    if model_ok and hops_real != hops_model:
+        res.corr_failures.append({"relation": "total message hops == sum of the model's route lengths", "what": f"{hops_real} on the wire, {hops_model} promised", "case": case0})
+    res.count("agg-buffers", stats["buffers"])
+    res.count("agg-buffers-with-several-final-destinations", stats["multi_dest_buffers"])
+    if stats["multi_dest_buffers"]:
+        res.distinct.add((N, p, pl, sch, buf, "agg"))
+    if (N, p, pl, sch, buf) == (3, 2, "block", "NLNR", None):
+        res.sample({"N": N, "p": p, "placement": pl, "scheme": sch, "kind": "aggregated all-to-all", "messages": total, "buffers": stats["buffers"],
+                    "buffers_with_several_final_destinations": stats["multi_dest_buffers"], "hops": hops_real, "hops_promised": hops_model})
+
+
 def guarded(res, case, fn, *a):
     """an exception while judging one job must not discard the failures already collected for the others"""
     try:
@@ -418,13 +569,22 @@ def run(tier, seed, model_ok=True):
     outs = C.pmap(lambda j: run_p2p(binary, j[0], j[1], j[2], j[3], j[4], sim_seed=seed, pl=j[5]), jobs)
     for j, sr in zip(jobs, outs):
         N, p, sch, lo, hi, pl = j
-        node, loc = nl[(N, p, pl)]
+        node, loc, _ = nl[(N, p, pl)]
         guarded(res, {"N": N, "p": p, "placement": pl, "kind": "wire", "scheme": sch, "lo": lo, "hi": hi}, check_wire,
                 res, N, p, sch, sr, lo, hi, M.get((N, p, pl)), model_ok, node, loc, wire.setdefault((N, p, pl), {}).setdefault(sch, {}), pl)
     for (N, p, pl), by in wire.items():
-        node, loc = nl[(N, p, pl)]
+        node, loc, _ = nl[(N, p, pl)]
         for sig, what, extra in global_pair_failures(N, p, by, node, "wire"):
             res.oracle_failures.append({"what": what, "signature": sig, "case": dict({"N": N, "p": p, "placement": pl, "kind": "wire", "scheme": "NLNR"}, **{k: (list(v) if isinstance(v, tuple) else v) for k, v in extra.items()})})
+    # ---- (3) aggregated traffic: several messages (with different next hops) per physical buffer
+    ajobs = [j for j in agg_jobs(tier, lays) if (j[0], j[1], j[2]) in nl]
+    aouts = C.pmap(lambda j: run_a2a(binary, *j, sim_seed=seed), ajobs)
+    for j, sr in zip(ajobs, aouts):
+        N, p, pl, sch, buf = j
+        node, loc, hop = nl[(N, p, pl)]
+        guarded(res, {"N": N, "p": p, "placement": pl, "kind": "agg", "scheme": sch, "buffer_kb": buf}, check_a2a,
+                res, N, p, pl, sch, buf, sr, M.get((N, p, pl)), model_ok, node, loc, hop)
+    res.notes.append(f"{len(ajobs)} aggregated all-to-all jobs (k={AGG_K} messages per pair, buffer default / 1 KB)")
     res.exhaustive = True
     res.notes.append(f"{len(lays)} layouts ({sum(1 for L in lays if L[2] == 'cyclic')} with round-robin placement), {len(jobs)} single-message wire jobs, sim seed {seed}")
     return res
@@ -446,6 +606,9 @@ def replay(data):
     M = MM.get((N, p, pl))
     envsch, sr = run_tables(binary, N, p, pl)
     nl = check_tables(res, N, p, envsch, sr, M, True, pl, MM.get((N, p, "block-only")) if pl == "block" else None)
+    if nl and case.get("kind") == "agg":
+        sr = run_a2a(binary, N, p, pl, case.get("scheme", "NLNR"), case.get("buffer_kb"), sim_seed=data.get("seed", 1))
+        check_a2a(res, N, p, pl, case.get("scheme", "NLNR"), case.get("buffer_kb"), sr, M, True, nl[0], nl[1], nl[2])
     if nl and case.get("kind") == "wire":
         s = case.get("s", case.get("lo", 0))
         sr = run_p2p(binary, N, p, case.get("scheme", "NLNR"), s, s + 1, sim_seed=data.get("seed", 1), pl=pl)
